@@ -120,6 +120,19 @@ def run(rec):
                         rec.check(np.allclose(out, exp, atol=1e-7), f'{name}:expm', f'delta={delta}: max dev {np.abs(out - exp).max()}', dict(inp, delta=str(delta)))
                         if delta == -0.3j:
                             rec.check(abs(np.linalg.norm(out) - 1) < 1e-8, f'{name}:norm-not-preserved', str(np.linalg.norm(out)), dict(inp, delta=str(delta)))
+                    # the `normalize` option and its documented default (Lanczos: np.real(delta) == 0, Arnoldi: False), start vector of norm 1.7
+                    for normalize in (None, True):
+                        expn = 1.7 * exp
+                        if normalize or (normalize is None and name == 'LanczosEvolution' and np.real(delta) == 0):
+                            expn = expn / np.linalg.norm(expn)
+                        ok, res = rec.guarded(f'{name}:exception',
+                                              lambda: cls(H, 1.7 * pn, {'N_max': dim_sec + 2, 'N_min': 2, 'P_tol': 1e-14, 'reortho': True}).run(delta, normalize=normalize),
+                                              dict(inp, delta=str(delta), normalize=normalize))
+                        if ok:
+                            out = res[0].to_ndarray()
+                            rec.check(np.allclose(out, expn, atol=1e-7), f'{name}(normalize={normalize}):expm',
+                                      f'delta={delta}: |result| = {np.linalg.norm(out)}, expected {np.linalg.norm(expn)}; max dev {np.abs(out - expn).max()}',
+                                      dict(inp, delta=str(delta), normalize=normalize))
             # Arnoldi Ritz pairs
             G, legg = herm_op(rng, chinfo, 2)
             Gd = G.to_ndarray()
